@@ -62,6 +62,8 @@ type c15Op struct {
 	// scripted pattern support
 	Delay       time.Duration // sleep before the operation
 	UseHandleOf *c15Op        // sign with the handle that operation obtained
+	StartAt     time.Duration // do not start before this virtual instant
+	Overlap     bool          // part of the overlapping-lookup pattern
 	Handle      token.Key
 	ForceNew    bool
 }
@@ -102,7 +104,18 @@ func (rt *c15RT) pick(op *c15Op) (string, string) {
 	if rt.quiet {
 		return "pass", ""
 	}
+	if op.Overlap {
+		// the overlapping-lookup pattern: both lookups reach a slow back-end
+		return "pass", "slow@getkey"
+	}
 	if t.Choose(10, "attempt-ok") >= rt.bias {
+		if t.Chance(1, 4, "backend-slow") {
+			target := op.Kind
+			if op.Kind == "sign" {
+				target = "getkey"
+			}
+			return "pass", "slow@" + target
+		}
 		return "pass", ""
 	}
 	kinds := []string{"http503", "http500", "http502", "http504", "refused", "reseteof", "stall", "be", "http400", "http403", "http404", "malformed", "empty200", "http501"}
@@ -264,7 +277,7 @@ func c15Run(r *core.Run) {
 			if op.CtxMode != "none" {
 				op.CtxAt = time.Duration(t.Choose(4000, "ctx-at"))*10*time.Millisecond + 5*time.Millisecond
 				if t.Chance(1, 3, "ctx-short") {
-					op.CtxAt = op.CtxAt%(3*time.Second) + 5*time.Millisecond
+					op.CtxAt = op.CtxAt % (3 * time.Second) // keeps the 5 ms offset from the event grid
 				}
 			}
 			plans[i] = append(plans[i], op)
@@ -294,6 +307,23 @@ func c15Run(r *core.Run) {
 		oldSign.UseHandleOf = first
 		newSign := mk("sign")
 		plans[0] = append([]*c15Op{first, refill, oldSign, newSign}, plans[0]...)
+		if t.Chance(1, 2, "overlapping-lookups") {
+			// at one instant, with the cache expired: a request pinned to the
+			// old identifier and an unpinned lookup of the same key overlap
+			// inside a slow back-end
+			if len(plans) < 2 {
+				plans = append(plans, nil)
+				ntasks = len(plans)
+			}
+			at := 2*time.Second + time.Duration(3*cacheS+6)*time.Second
+			pinned := mk("sign")
+			pinned.UseHandleOf = first
+			pinned.StartAt, pinned.Overlap = at, true
+			plans[0] = append(plans[0], pinned)
+			other := mk("getkey")
+			other.StartAt, other.Overlap = at, true
+			plans[1] = append([]*c15Op{other}, plans[1]...)
+		}
 	}
 	r.Sample = map[string]any{"retries": retriesCfg, "timeout_s": timeoutCfg, "cache_s": cacheS, "rate_limit": rateLimit, "tasks": ntasks, "fault_bias": bias, "rotate_at_ms": rotateAt.Milliseconds()}
 
@@ -346,6 +376,9 @@ func c15Run(r *core.Run) {
 				return world.TokOutcome{}
 			}
 			att.Consumed = true
+			if parts[0] == "slow" {
+				return world.TokOutcome{Delay: 700 * time.Millisecond} // on the 10 ms grid; caller deadlines sit 5 ms off it
+			}
 			return world.TokOutcome{Kind: parts[0]}
 		}
 		wt, err := worker.ZZNew(cfg, "tok", "worker.sim:1", cookie)
@@ -389,6 +422,9 @@ func c15Run(r *core.Run) {
 				op.Task = name
 				if op.Delay > 0 {
 					w.Sleep(op.Delay)
+				}
+				if d := op.StartAt - w.Since(); op.StartAt > 0 && d > 0 {
+					w.Sleep(d)
 				}
 				if op.UseHandleOf != nil {
 					if op.UseHandleOf.Handle == nil {
@@ -579,7 +615,7 @@ func c15Run(r *core.Run) {
 			if op.End-ctxEnd > time.Second {
 				r.Failf("C15.cancel-not-prompt", key, "caller's context ended at %v but the operation returned only at %v: %s", ctxEnd, op.End, desc)
 			}
-			if op.Err == nil {
+			if op.Err == nil && op.End > ctxEnd {
 				r.Failf("C15.cancel-ignored", key, "caller's context ended at %v before the operation returned, yet it reports success: %s", ctxEnd, desc)
 			}
 			r.Probe("cancelled-" + op.CtxMode)
